@@ -109,6 +109,8 @@ def run(sid, tier='quick', seeds=(0,)):
                 print(sid, key, 'exit', p.returncode, viol[:1])
     finally:
         sh(['git', '-C', REPO, 'checkout', '--', '.'])
+        # evidence / generated model written while the change was applied describe the mutant
+        sh(['git', '-C', VERIF, 'checkout', '--', 'evidence', 'lean/LbgVerif/Gen'])
         rc, out = sh(['git', '-C', REPO, 'status', '--porcelain'])
         if out.strip():
             print('WARNING: /repo not clean after restore:', out)
